@@ -299,8 +299,7 @@ func (ts *tokenScanner) Cur() Token {
 	case DelimIdent:
 		tok.Type = IDENT
 		// strip quotes
-		tok.Text = ts.s.TokenText()
-		tok.Text = tok.Text[1 : len(tok.Text)-1]
+		tok.Text = stripQuotes(ts.s.TokenText())
 	default:
 		tok.Text = ts.s.TokenText()
 		if kw, isKw := keywords[strings.ToUpper(ts.s.TokenText())]; isKw {
@@ -321,11 +320,23 @@ func (ts *tokenScanner) Cur() Token {
 			tok.Type = STR
 			if ts.cur == String {
 				// strip quotes
-				tok.Text = tok.Text[1 : len(tok.Text)-1]
+				tok.Text = stripQuotes(tok.Text)
 			}
 		}
 	}
 	return tok
+}
+
+// stripQuotes removes the delimiters of a quoted token. A literal that is not
+// terminated (the scanner has reported it) has no closing quote to remove.
+func stripQuotes(text string) string {
+	switch {
+	case len(text) >= 2 && text[len(text)-1] == text[0]:
+		return text[1 : len(text)-1]
+	case len(text) >= 1:
+		return text[1:]
+	}
+	return text
 }
 
 func (ts *tokenScanner) Next() bool {
